@@ -351,3 +351,15 @@ Fixpoint len_ty (t : ty) (v : value) {struct t} : N :=
   | TySystemTime, VVar i (VList [VNat s; VNat ns]) => if i =? 0 then 1 + len_u64 s + len_u32 ns else 0
   | _, _ => 0
   end.
+
+(* ------------------------------------------------------------------ encode::ArrayIter / MapIter (encode.rs:1022,1059)
+   size_hint = (low, up); `exact` iff Some(low) == up; the items are whatever the iterator yields *)
+Definition hint_exact (low : N) (up : option N) : bool := match up with Some u => u =? low | None => false end.
+
+Definition enc_array_iter (low : N) (up : option N) (items : list (list chunk)) : list chunk :=
+  if hint_exact low up then enc_array low ++ concat items
+  else enc_begin_array ++ concat items ++ enc_end.
+
+Definition enc_map_iter (low : N) (up : option N) (pairs : list (list chunk)) : list chunk :=
+  if hint_exact low up then enc_map low ++ concat pairs
+  else enc_begin_map ++ concat pairs ++ enc_end.
